@@ -1276,6 +1276,8 @@ pub fn c16(ctx: &Ctx) {
 			})*}
 		}
 		transparent_families!(TNewtype, TNewtypeZ, TCompact, TEncAs, TSkip, TCompactZ, TEncAsZ, TOnlyFirst, TOnlyLast, SSingle, SCompact);
+		// pointees that occupy no memory but do have bytes on the wire (and some that have neither)
+		transparent_families!(Only, Marker, TAllZ, [Only; 2], (Marker, Only), ());
 		// nested composition of declarations
 		let nested_a: Vec<(&u32, Box<String>)> = vec![(&x, Box::new(s.clone()))];
 		let nested_b: Vec<(u32, String)> = vec![(x, s.clone())];
